@@ -8,6 +8,85 @@ use lopdf::{Document, IncrementalDocument, Object};
 use lopdf_conform::{gen, guard::guarded, io::*, rng::Rng, wire::*};
 use serde_json::{json, Value};
 
+
+/// 1..3 rounds of IncrementalDocument::load_from -> edits -> save_to -> Document::load_mem on `file`
+fn rounds(out: &mut NdjsonOut, rng: &mut Rng, case: u64, mut file: Vec<u8>, g: &gen::DocGen) {
+    let rounds = 1 + rng.below(3);
+    for round in 0..rounds {
+        let prev_bytes = file.clone();
+        let mut inc = match guarded(|| IncrementalDocument::load_from(&prev_bytes[..])) {
+            Ok(Ok(i)) => i,
+            Ok(Err(e)) => {
+                out.put(&json!({"ev": "LoadInc", "case": case, "round": round, "res": format!("err:{e:?}")}));
+                break;
+            }
+            Err(p) => {
+                out.put(&json!({"ev": "LoadInc", "case": case, "round": round, "res": format!("panic:{p}")}));
+                break;
+            }
+        };
+        let prev_before = doc_to_tla(inc.get_prev_documents());
+        // edits: replace some existing objects (clone-then-modify or set_object), add new ones
+        let ids: Vec<_> = inc.get_prev_documents().objects.iter()
+            .filter(|(_, o)| !matches!(o.type_name(), Ok(b"XRef") | Ok(b"ObjStm")))
+            // bare integers may be the indirect Length of a stream of the base file: replacing one would make
+            // the updated file invalid by the caller's doing, not the library's
+            .filter(|(_, o)| !matches!(o, Object::Integer(_)))
+            .map(|(k, _)| *k).collect();
+        let only_modify = rng.chance(1, 3);
+        for id in &ids {
+            match rng.below(6) {
+                0 => {
+                    let _ = inc.opt_clone_object_to_new_document(*id);
+                    if let Ok(Object::Dictionary(d)) = inc.new_document.get_object_mut(*id) {
+                        d.set("Edited", Object::Integer(round as i64 + 1));
+                    }
+                }
+                1 => inc.new_document.set_object(*id, g.object(rng, 0)),
+                2 if rng.chance(1, 3) => inc.new_document.set_object(*id, g.stream(rng)),
+                _ => {}
+            }
+        }
+        if only_modify {
+            // an update that adds nothing: at least one existing object is replaced
+            if inc.new_document.objects.is_empty() {
+                if let Some(id) = ids.first() {
+                    inc.new_document.set_object(*id, g.object(rng, 0));
+                }
+            }
+        } else {
+            for _ in 0..rng.below(3) {
+                let o = g.top_object(rng);
+                inc.new_document.add_object(o);
+            }
+        }
+        if rng.chance(1, 3) {
+            let v = g.object(rng, 1);
+            inc.new_document.trailer.set("Info", v);
+        }
+        let newdoc = doc_to_tla(&inc.new_document);
+        let mut outb = Vec::new();
+        let res = match guarded(|| inc.save_to(&mut outb)) {
+            Ok(Ok(())) => "ok".to_string(),
+            Ok(Err(e)) => format!("err:{e}"),
+            Err(p) => format!("panic:{p}"),
+        };
+        let prev_after = doc_to_tla(inc.get_prev_documents());
+        out.put(&json!({"ev": "SaveInc", "case": case, "round": round, "res": res, "newdoc": newdoc,
+                        "prev_before": prev_before, "prev_after": prev_after,
+                        "bytes": if res == "ok" { bytes_to_json(&outb) } else { Value::Array(vec![]) }}));
+        if res != "ok" {
+            break;
+        }
+        match guarded(|| Document::load_mem(&outb)) {
+            Ok(Ok(d)) => out.put(&json!({"ev": "Load", "case": case, "res": "ok", "doc": doc_to_tla(&d)})),
+            Ok(Err(e)) => out.put(&json!({"ev": "Load", "case": case, "res": format!("err:{e:?}"), "doc": doc_to_tla(&Document::new())})),
+            Err(p) => out.put(&json!({"ev": "Load", "case": case, "res": format!("panic:{p}"), "doc": doc_to_tla(&Document::new())})),
+        }
+        file = outb;
+    }
+}
+
 fn record(args: &[String]) {
     let seed = arg_u64(args, "--seed", 1);
     let n = arg_u64(args, "--n", 40);
@@ -34,66 +113,18 @@ fn record(args: &[String]) {
             out.put(&json!({"ev": "File", "case": case, "bytes": bytes_to_json(&file), "knobs": {"junk": junk.len(), "fmt": fmt}}));
         }
         let g = gen::DocGen { max_depth: 2, ids: doc.objects.keys().copied().collect(), hostile_names: case % 3 != 0, allow_big_reals: true };
-        let rounds = 1 + rng.below(3);
-        for round in 0..rounds {
-            let prev_bytes = file.clone();
-            let mut inc = match guarded(|| IncrementalDocument::load_from(&prev_bytes[..])) {
-                Ok(Ok(i)) => i,
-                Ok(Err(e)) => {
-                    out.put(&json!({"ev": "LoadInc", "case": case, "round": round, "res": format!("err:{e:?}")}));
-                    break;
-                }
-                Err(p) => {
-                    out.put(&json!({"ev": "LoadInc", "case": case, "round": round, "res": format!("panic:{p}")}));
-                    break;
-                }
-            };
-            let prev_before = doc_to_tla(inc.get_prev_documents());
-            // edits: replace some existing objects (clone-then-modify or set_object), add new ones
-            let ids: Vec<_> = inc.get_prev_documents().objects.iter()
-                .filter(|(_, o)| !matches!(o.type_name(), Ok(b"XRef") | Ok(b"ObjStm")))
-                .map(|(k, _)| *k).collect();
-            for id in &ids {
-                match rng.below(6) {
-                    0 => {
-                        let _ = inc.opt_clone_object_to_new_document(*id);
-                        if let Ok(Object::Dictionary(d)) = inc.new_document.get_object_mut(*id) {
-                            d.set("Edited", Object::Integer(round as i64 + 1));
-                        }
-                    }
-                    1 => inc.new_document.set_object(*id, g.object(&mut rng, 0)),
-                    2 if rng.chance(1, 3) => inc.new_document.set_object(*id, g.stream(&mut rng)),
-                    _ => {}
-                }
-            }
-            for _ in 0..rng.below(3) {
-                let o = g.top_object(&mut rng);
-                inc.new_document.add_object(o);
-            }
-            if rng.chance(1, 3) {
-                let v = g.object(&mut rng, 1);
-                inc.new_document.trailer.set("Info", v);
-            }
-            let newdoc = doc_to_tla(&inc.new_document);
-            let mut outb = Vec::new();
-            let res = match guarded(|| inc.save_to(&mut outb)) {
-                Ok(Ok(())) => "ok".to_string(),
-                Ok(Err(e)) => format!("err:{e}"),
-                Err(p) => format!("panic:{p}"),
-            };
-            let prev_after = doc_to_tla(inc.get_prev_documents());
-            out.put(&json!({"ev": "SaveInc", "case": case, "round": round, "res": res, "newdoc": newdoc,
-                            "prev_before": prev_before, "prev_after": prev_after,
-                            "bytes": if res == "ok" { bytes_to_json(&outb) } else { Value::Array(vec![]) }}));
-            if res != "ok" {
-                break;
-            }
-            match guarded(|| Document::load_mem(&outb)) {
-                Ok(Ok(d)) => out.put(&json!({"ev": "Load", "case": case, "res": "ok", "doc": doc_to_tla(&d)})),
-                Ok(Err(e)) => out.put(&json!({"ev": "Load", "case": case, "res": format!("err:{e:?}"), "doc": doc_to_tla(&Document::new())})),
-                Err(p) => out.put(&json!({"ev": "Load", "case": case, "res": format!("panic:{p}"), "doc": doc_to_tla(&Document::new())})),
-            }
-            file = outb;
+        rounds(&mut out, &mut rng, case, file, &g);
+    }
+    // bases written by another producer (the specification's Producer: compressed xref streams, object streams,
+    // XRef stream objects that are not the highest-numbered object, several revisions, every lexical freedom)
+    if let Some(bp) = arg(args, "--bases") {
+        for (i, b) in read_ndjson(&bp).iter().enumerate() {
+            let case = n + i as u64;
+            let file = json_to_bytes(&b["bytes"]);
+            out.put(&json!({"ev": "Reset", "case": case}));
+            out.put(&json!({"ev": "File", "case": case, "bytes": b["bytes"], "knobs": {"junk": b["junk"], "xref": b["xref"], "sfilter": b["sfilter"], "selfgap": b["selfgap"], "nrevs": b["nrevs"], "ncomp": b["ncomp"], "producer": true}}));
+            let g = gen::DocGen { max_depth: 2, ids: vec![], hostile_names: i % 3 != 0, allow_big_reals: true };
+            rounds(&mut out, &mut rng, case, file, &g);
         }
     }
     out.finish();
